@@ -445,3 +445,30 @@ def print_shape(lines: typing.Sequence[str]) -> typing.List[str]:
     compared operand by operand only while their shapes agree; an independently restructured sibling is not comparable"""
     import re
     return [re.sub(r"^([a-z]*\|)(if |while |v\d+:=)?.*$", lambda m_: m_.group(1) + (m_.group(2) or "=" if ":=" not in (m_.group(2) or "") else "decl"), ln) for ln in lines]
+
+
+def norm(t):
+    """one spelling for min written as a conditional and for the remaining-bits idiom:
+       (a < b) ? a : b  ->  min(a, b);     (a < b) ? 0 : a - b  ->  a - min(a, b)"""
+    if not isinstance(t, tuple) or not t:
+        return t
+    if t and isinstance(t[0], str):
+        t = tuple(norm(x) if isinstance(x, tuple) else x for x in t)
+    else:
+        return tuple(norm(x) if isinstance(x, tuple) else x for x in t)
+    if t[0] == "cond" and t[1][0] == "bin" and t[1][1] in ("<", "<=", ">", ">="):
+        op, a, b = t[1][1], t[1][2], t[1][3]
+        if op in (">", ">="):
+            a, b, op = b, a, "<" if op == ">" else "<="          # a < b
+        yes, no = t[2], t[3]
+        if (yes, no) in ((a, b),):
+            return ("call", "min", (a, b))
+        if (yes, no) == (b, a):
+            return ("call", "max", (a, b))
+        if is_int(yes, 0) and no == ("bin", "-", a, b):
+            return ("bin", "-", a, ("call", "min", (a, b)))        # a < b ? 0 : a - b
+        if is_int(no, 0) and yes == ("bin", "-", b, a):
+            return ("bin", "-", b, ("call", "min", (b, a)))        # a < b ? b - a : 0
+    return t
+
+
